@@ -164,6 +164,8 @@ def run(ctx):
     ctx.ob("C28.R2", E + ":ConstantExpressionEvaluator.eval_binop", "non-numeric operands (addresses) are a diagnostic, not TypeError", any("isinstance" in norm(g) for g in guards), construct="operand-guard")
 
     _literal_range(ctx)
+    from .c29 import late_binding_rule
+    late_binding_rule(ctx, "C28.R5", ("ppci/lang/", "ppci/common.py", "ppci/utils/"))
     from ..report import Sub
     from . import c27
     c27.run(Sub(ctx, "C27", only=["C27.R3"]))   # an unconverted constant ends in struct.error when it is packed
